@@ -1,9 +1,10 @@
 (* C10  A Series is a period-indexed map: reads, writes, alignment, trim, isolation.
-   Restatements only; proofs are in proofs/SeriesProofs.v and proofs/SeriesOpsProofs.v.
+   Restatements only; proofs are in proofs/SeriesProofs.v, proofs/SeriesOpsProofs.v, proofs/SeriesWinProofs.v
+   (statistics, moving windows) and proofs/SeriesFillProofs.v (fill_missing).
    Every theorem holds for EVERY scalar carrier A whose missing value is recognisable
    (miss_law), for every series, period, and history of operations. *)
 From Coq Require Import ZArith List Bool.
-From Verif Require Import lib.Arith lib.ArithOptZ model.Series model.SeriesOps proofs.SeriesProofs proofs.SeriesOpsProofs.
+From Verif Require Import lib.Arith lib.ArithOptZ model.Series model.SeriesOps proofs.SeriesProofs proofs.SeriesOpsProofs proofs.SeriesWinProofs proofs.SeriesFillProofs.
 Import ListNotations.
 Open Scope Z_scope.
 
@@ -104,4 +105,116 @@ Example C10_lawful_carrier_exists :
 Proof.
   split; [exact OZ_miss_law|]. split; [reflexivity|].
   repeat constructor; simpl; discriminate.
+Qed.
+
+(* ------------------------------------------------------------------------------------------------
+   values of the statistics across variants and of the moving-window functions (proofs/SeriesWinProofs.v) *)
+
+(* a lawful carrier with the extra operations, for the non-vacuity examples *)
+Definition OZX : ArithExt OZArith :=
+  mkExt OZArith (option_map Z.abs) (fun x => x)
+    (fun a b => match a, b with Some x, Some y => x <? y | _, _ => false end)
+    (fun a b => match a, b with Some x, Some y => x =? y | _, _ => false end).
+Definition oz_demo : series OZArith :=
+  mkSeries (A:=OZArith) 4 (Some 8000) 2 [[Some 1; Some 5]; [Some 2; None]; [None; None]; [Some 4; Some 7]].
+
+(* sum/mean/prod/max/min and their nan-variants: inside the span the statistic of the period's row, a
+   missing value outside *)
+Theorem C10_statistic_spec : forall A, lawful A -> forall (X : ArithExt A) k (s : series A) t, WF A s ->
+  row_at A (statistic A X k s) t
+  = if in_span A s t then [stat_value A X k (row_at A s t)] else missrow A 1.
+Proof. exact statistic_spec. Qed.
+Print Assumptions C10_statistic_spec.
+Example C10_statistic_nonvacuous :
+  WF OZArith oz_demo /\ row_at OZArith (statistic OZArith OZX StNanSum oz_demo) 8001 = [Some 2]
+  /\ row_at OZArith (statistic OZArith OZX StSum oz_demo) 8003 = [Some 11]
+  /\ row_at OZArith (statistic OZArith OZX StNanSum oz_demo) 8004 = [None].
+Proof. split; [repeat constructor; simpl; discriminate|]. repeat split; reflexivity. Qed.
+
+(* mov_sum / mov_avg / mov_prod with a window of k periods: at every period t of the span, variant c holds
+   the left-to-right sum (mean, product) of x(t-k+1), ..., x(t) (periods before the start count as missing);
+   outside the span the result is missing *)
+Theorem C10_moving_spec : forall A, lawful A -> forall m k (s r : series A) t, WF A s -> moving A m k s = Ok r ->
+  row_at A r t
+  = if in_span A s t then map (fun c => mov_value A m k (window_at A s t k c)) (seq 0 (s_nv s))
+    else missrow A (s_nv s).
+Proof. exact moving_spec. Qed.
+Print Assumptions C10_moving_spec.
+Example C10_moving_nonvacuous :
+  moving OZArith MovSum 2 oz_demo
+    = Ok (mkSeries (A:=OZArith) 4 (Some 8001) 2 [[Some 3; None]])
+  /\ window_at OZArith oz_demo 8001 2 0 = [Some 1; Some 2]
+  /\ mov_value OZArith MovSum 2 [Some 1; Some 2] = Some 3.
+Proof. repeat split; reflexivity. Qed.
+
+(* the window value is missing as soon as one member of the window is missing, for every carrier whose
+   +, * and / propagate the missing value (IEEE NaN does; so does option Z) *)
+Theorem C10_moving_missing_member : forall A m k (w : list (car A)) x,
+  propagates A (add A) -> propagates A (mul A) ->
+  (forall a b, is_miss A a = true -> is_miss A (div A a b) = true) ->
+  In x w -> is_miss A x = true -> is_miss A (mov_value A m k w) = true.
+Proof. exact mov_value_missing. Qed.
+Print Assumptions C10_moving_missing_member.
+Example C10_moving_missing_nonvacuous :
+  propagates OZArith (add OZArith) /\ propagates OZArith (mul OZArith) /\
+  (forall a b, is_miss OZArith a = true -> is_miss OZArith (div OZArith a b) = true).
+Proof.
+  repeat split; intros [x|] [y|]; simpl; intros H; try reflexivity; discriminate.
+Qed.
+
+(* ------------------------------------------------------------------------------------------------
+   fill_missing over a contiguous range a..b of periods: span = None works on the whole series, an explicit
+   span on the given range (proofs/SeriesFillProofs.v).  fill_dates is the list of periods the code works on. *)
+
+(* periods outside the filled range keep their values *)
+Theorem C10_fill_outside_untouched : forall A, lawful A -> forall fr k span (s : series A) a b t, WF A s ->
+  fill_dates A span s = zrange a (b + 1) -> ~ (a <= t <= b) ->
+  row_at A (fill_missing A fr k span s) t = row_at A s t.
+Proof. exact fill_missing_outside. Qed.
+Print Assumptions C10_fill_outside_untouched.
+
+(* constant: missing cells of the range take the constant, observed cells keep their value *)
+Theorem C10_fill_constant_spec : forall A, lawful A -> forall fr span (s : series A) a b, WF A s ->
+  fill_dates A span s = zrange a (b + 1) -> forall v t c, a <= t <= b -> (c < s_nv s)%nat ->
+  cell A (fill_missing A fr (FillConst A v) span s) t c
+  = if is_miss A (cell A s t c) then v else cell A s t c.
+Proof. exact fill_const_spec. Qed.
+Print Assumptions C10_fill_constant_spec.
+
+(* previous: a cell of the range takes the last observed value at or before t inside the range (its own value
+   when it is observed: u = t), and is missing when there is none *)
+Theorem C10_fill_previous_spec : forall A, lawful A -> forall fr span (s : series A) a b, WF A s ->
+  fill_dates A span s = zrange a (b + 1) -> forall t c, a <= t <= b -> (c < s_nv s)%nat ->
+  let r := cell A (fill_missing A fr (FillPrev A) span s) t c in
+  (forall u, a <= u <= t -> is_miss A (cell A s u c) = false ->
+     (forall w, u < w <= t -> is_miss A (cell A s w c) = true) -> r = cell A s u c) /\
+  ((forall u, a <= u <= t -> is_miss A (cell A s u c) = true) -> r = miss A).
+Proof. exact fill_previous_spec. Qed.
+Print Assumptions C10_fill_previous_spec.
+
+(* next: a cell of the range takes the first observed value at or after t inside the range, missing when none *)
+Theorem C10_fill_next_spec : forall A, lawful A -> forall fr span (s : series A) a b, WF A s ->
+  fill_dates A span s = zrange a (b + 1) -> forall t c, a <= t <= b -> (c < s_nv s)%nat ->
+  let r := cell A (fill_missing A fr (FillNext A) span s) t c in
+  (forall u, t <= u <= b -> is_miss A (cell A s u c) = false ->
+     (forall w, t <= w < u -> is_miss A (cell A s w c) = true) -> r = cell A s u c) /\
+  ((forall u, t <= u <= b -> is_miss A (cell A s u c) = true) -> r = miss A).
+Proof. exact fill_next_spec. Qed.
+Print Assumptions C10_fill_next_spec.
+
+(* non-vacuity: the range hypothesis holds for the whole series and for an explicit range, and the three
+   methods give the documented values on a concrete series *)
+Example C10_fill_nonvacuous :
+  (forall (s : series OZArith) st en, s_start s = Some st -> s_end OZArith s = Some en ->
+     fill_dates OZArith None s = zrange st (en + 1)) /\
+  (forall (s : series OZArith) a b, fill_dates OZArith (Some (zrange a (b + 1))) s = zrange a (b + 1)) /\
+  WF OZArith oz_demo /\ fill_dates OZArith None oz_demo = zrange 8000 (8003 + 1) /\
+  cell OZArith (fill_missing OZArith 4 (FillPrev OZArith) None oz_demo) 8002 1 = Some 5 /\
+  cell OZArith (fill_missing OZArith 4 (FillNext OZArith) None oz_demo) 8002 1 = Some 7 /\
+  cell OZArith (fill_missing OZArith 4 (FillConst OZArith (Some 9)) (Some (zrange 8002 (8005 + 1))) oz_demo) 8005 0 = Some 9 /\
+  cell OZArith (fill_missing OZArith 4 (FillPrev OZArith) (Some (zrange 8002 (8002 + 1))) oz_demo) 8002 0 = None.
+Proof.
+  split; [intros s st en Hs He; unfold fill_dates, span_list; now rewrite Hs, He|].
+  split; [reflexivity|]. split; [repeat constructor; simpl; discriminate|].
+  repeat split; reflexivity.
 Qed.
